@@ -67,7 +67,7 @@ TEXT = {
                 ref="DESIGN.md §4 C07", note="Trusted: the driver's oracle and rustc's debug/release builds. Bounds as stated.",
                 technique="bounded-exhaustive native driver (stand-in; contract-based proof not applicable to BTreeMap-based code here)"),
     "C09": dict(level="Bounded (labelled as such): twin harnesses over 17 region compositions and FlatStack (clone / clone_from into destinations pre-filled with 0..3 unrelated items, identical further push, then divergence), "
-                      "plus two mechanical program-text obligations: every hand-written clone/clone_from mentions every field, and src/ contains no shared-state primitive (so independence follows from ownership). "
+                      "plus two mechanical program-text obligations: every hand-written clone/clone_from mentions every field (or hands the whole value to clone), and src/ contains no shared-state primitive (so independence follows from ownership). "
                       "Deductive part (Verus, unbounded, relative): the 18 hand-written clone / clone_from bodies of nine wrappers return / leave a value equal to the source, assuming the same law for their type parameters and Vec.",
                 ref="DESIGN.md §4 C09", note="Trusted: harness oracles; Clone of std types; the CloneLaw contract assumed for type parameters and Vec (std's Clone has no usable Verus spec). If a clone body leaves the dialect the proved part for it is dropped with a NOTE and the bounded tier alone decides.",
                 technique="bounded twin harnesses (native exhaustive enumeration) + program-text scans + a small contract-based part (Verus) on the hand-written clone bodies"),
